@@ -131,7 +131,7 @@ const row_t g_rows[] = {
     {"memmove32_s", c_memmove32_s, SRCM | F_SRCBOS | F_DW | F_CLEAR | F_MEM | F_SLE_DMAX | F_ZEROLEN_NOOP, FAM_MEMCPY, 4, 1, 4, MEMMAX, OUT_NONE, RK_ERRNO},
     {"wmemcpy_s", c_wmemcpy_s, SRCM | F_SRCBOS | F_DW | F_CLEAR | F_MEM | F_SLE_DMAX | F_ZEROLEN_NOOP, FAM_MEMCPY, 4, 4, 4, RSIZE_MAX_WMEM, OUT_NONE, RK_ERRNO},
     {"wmemmove_s", c_wmemmove_s, SRCM | F_SRCBOS | F_DW | F_CLEAR | F_MEM | F_SLE_DMAX | F_ZEROLEN_NOOP, FAM_MEMCPY, 4, 4, 4, RSIZE_MAX_WMEM, OUT_NONE, RK_ERRNO},
-    {"memccpy_s", c_memccpy_s, F_SRC | F_N | F_NLE_DMAX | F_VAL | F_VAL255 | F_SRCBOS | F_DW | F_CLEAR | F_MEM, FAM_MEMCPY, 1, 1, 1, MEMMAX, OUT_NONE, RK_ERRNO},
+    {"memccpy_s", c_memccpy_s, F_SRC | F_N | F_NLE_DMAX | F_VAL | F_SRCBOS | F_DW | F_CLEAR | F_MEM, FAM_MEMCPY, 1, 1, 1, MEMMAX, OUT_NONE, RK_ERRNO},
 
     {"memset_s", c_memset_s, F_DW | F_MEM | F_VAL | F_VAL255 | F_N | F_NLE_DMAX | F_DMAX_ZERO_OK, FAM_FILL, 1, 1, 1, MEMMAX, OUT_NONE, RK_ERRNO},
     {"memset16_s", c_memset16_s, F_DW | F_MEM | F_VAL | F_N | F_NLE_DMAX, FAM_FILL, 2, 1, 2, MEMMAX, OUT_NONE, RK_ERRNO},
@@ -188,11 +188,11 @@ const row_t g_rows[] = {
     {"wmemcmp_s", c_wmemcmp_s, F_DMEM | SRCM | F_SRCBOS | F_MEM | F_SLE_DMAX | F_SLEN_NZ, FAM_QUERY, 4, 4, 4, RSIZE_MAX_WMEM, OUT_INT, RK_ERRNO},
     {"memchr_s", c_memchr_s, F_DMEM | F_VAL | F_VAL255 | F_MEM, FAM_QUERY, 1, 1, 1, MEMMAX, OUT_PTR, RK_ERRNO},
     {"memrchr_s", c_memrchr_s, F_DMEM | F_VAL | F_VAL255 | F_MEM, FAM_QUERY, 1, 1, 1, MEMMAX, OUT_PTR, RK_ERRNO},
-    {"wcscmp_s", c_wcscmp_s, F_DIN | SRCN | F_SRCBOS, FAM_QUERY, 4, 4, 4, WSTRMAX, OUT_INT, RK_ERRNO},
-    {"wcsncmp_s", c_wcsncmp_s, F_DIN | SRCN | F_SRCBOS | F_N, FAM_QUERY, 4, 4, 4, WSTRMAX, OUT_INT, RK_ERRNO},
-    {"wcsicmp_s", c_wcsicmp_s, F_DIN | SRCN | F_SRCBOS, FAM_QUERY, 4, 4, 4, WSTRMAX, OUT_INT, RK_ERRNO},
-    {"wcsnatcmp_s", c_wcsnatcmp_s, F_DIN | SRCN | F_SRCBOS | F_VAL, FAM_QUERY, 4, 4, 4, WSTRMAX, OUT_INT, RK_ERRNO},
-    {"wcscoll_s", c_wcscoll_s, F_DIN | SRCN | F_SRCBOS, FAM_QUERY, 4, 4, 4, WSTRMAX, OUT_INT, RK_ERRNO},
+    {"wcscmp_s", c_wcscmp_s, F_DIN | SRCN | F_SRCBOS | F_SLEN_NZ, FAM_QUERY, 4, 4, 4, WSTRMAX, OUT_INT, RK_ERRNO},
+    {"wcsncmp_s", c_wcsncmp_s, F_DIN | SRCN | F_SRCBOS | F_SLEN_NZ | F_N, FAM_QUERY, 4, 4, 4, WSTRMAX, OUT_INT, RK_ERRNO},
+    {"wcsicmp_s", c_wcsicmp_s, F_DIN | SRCN | F_SRCBOS | F_SLEN_NZ, FAM_QUERY, 4, 4, 4, WSTRMAX, OUT_INT, RK_ERRNO},
+    {"wcsnatcmp_s", c_wcsnatcmp_s, F_DIN | SRCN | F_SRCBOS | F_SLEN_NZ | F_VAL, FAM_QUERY, 4, 4, 4, WSTRMAX, OUT_INT, RK_ERRNO},
+    {"wcscoll_s", c_wcscoll_s, F_DIN | SRCN | F_SRCBOS | F_SLEN_NZ, FAM_QUERY, 4, 4, 4, WSTRMAX, OUT_INT, RK_ERRNO},
     {"wcsstr_s", c_wcsstr_s, F_DIN | SRCN | F_SRCBOS, FAM_QUERY, 4, 4, 4, WSTRMAX, OUT_PTR, RK_ERRNO},
     {"timingsafe_bcmp", c_timingsafe_bcmp, F_DMEM | F_SRC | F_SRCBOS | F_MEM | F_DMAX_ZERO_OK | F_NONULL, FAM_QUERY, 1, 1, 1, MEMMAX, OUT_NONE, RK_LEN},
     {"timingsafe_memcmp", c_timingsafe_memcmp, F_DMEM | F_SRC | F_SRCBOS | F_MEM | F_DMAX_ZERO_OK | F_NONULL, FAM_QUERY, 1, 1, 1, MEMMAX, OUT_NONE, RK_LEN},
